@@ -91,19 +91,27 @@ Print Assumptions probability_rows_bce_multi_refuted.
 
 (** predict_proba returns the output unchanged when there are at least two channels ... *)
 Theorem predict_proba_multi (output : dmat) (o : nat) :
-  2 <= o -> (forall row, In row output -> length row = o) -> predict_proba output = Ok output.
+  2 <= o -> (forall row, In row output -> length row = o) -> predict_proba output = output.
 Proof. exact (GnnProofs.predict_proba_multi output o). Qed.
 Print Assumptions predict_proba_multi.
 
-(** ... and raises for a single channel (np.vstack called with two positional arguments), although the
-    documented two-column form (1 - p, p) has rows summing to 1. *)
-Theorem predict_proba_single_refuted :
+(** ... and for a single channel the two columns (1 - p, p): probability rows summing to 1. *)
+Theorem predict_proba_single (output : dmat) :
+  (forall row, In row output -> length row = 1) ->
+  length (predict_proba output) = length output /\
+  forall i, i < length output ->
+    exists p, nth i output [] = (p :: nil) /\ nth i (predict_proba output) [] = [(1 - p)%Q; p] /\
+              (sumq (nth i (predict_proba output) []) == 1)%Q.
+Proof. exact (GnnProofs.predict_proba_single output). Qed.
+Print Assumptions predict_proba_single.
+
+(** Legacy (before repo commit 166aefc2): np.vstack called with two positional arguments raised. *)
+Theorem predict_proba_single_legacy_refuted :
   exists output : dmat,
     (forall row, In row output -> length row = 1) /\ output <> [] /\
-    predict_proba output = Err TypeError /\
-    forall row, In row (predict_proba_intended output) -> (sumq row == 1)%Q.
-Proof. exact GnnProofs.predict_proba_single_refuted. Qed.
-Print Assumptions predict_proba_single_refuted.
+    predict_proba_legacy output = Err TypeError.
+Proof. exact GnnProofs.predict_proba_single_legacy_refuted. Qed.
+Print Assumptions predict_proba_single_legacy_refuted.
 
 (* =========================================================================================== *)
 (** * Part II — derivatives over R *)
@@ -152,23 +160,28 @@ Theorem bce_grad_single (eps x : R) (S : list (list R)) (labels : list nat) (i :
 Proof. exact (GnnCalculus.bce_grad_single eps x S labels i). Qed.
 Print Assumptions bce_grad_single.
 
-(** D18: with several channels the coded [(probs.T - labels).T] is NOT the derivative of the coded loss. *)
-Theorem bce_grad_multi_refuted (eps : R) :
+(** BinaryCrossEntropy.loss_gradient = n * d(mean loss)/d signal[i][k] for SEVERAL output channels
+    (one-hot form, repo commit 018b4674), away from the clipping threshold. *)
+Theorem bce_grad_multi (eps : R) (S : list (list R)) (labels : list nat) (i k : nat) :
+  length labels = length S -> (i < length S)%nat ->
+  (2 <= length (nth i S nil))%nat -> (k < length (nth i S nil))%nat ->
+  (nth i labels 0%nat < length (nth i S nil))%nat ->
+  eps < r_sigmoid (nth k (nth i S nil) 0) < 1 - eps ->
+  is_derive (fun t => r_mean_loss (r_bce_loss_row eps) (upd S i (upd (nth i S nil) k t)) labels)
+            (nth k (nth i S nil) 0)
+            (nth k (r_bce_gradient (nth i S nil) (nth i labels 0%nat)) 0 / INR (length labels)).
+Proof. exact (GnnCalculus.bce_grad_multi eps S labels i k). Qed.
+Print Assumptions bce_grad_multi.
+
+(** Legacy D18 (before 018b4674): [(probs.T - labels).T] with several channels was NOT the derivative. *)
+Theorem bce_grad_multi_legacy_refuted (eps : R) :
   0 < eps < 1 / 2 ->
   exists (x : list R) (y k : nat),
     (2 <= length x)%nat /\ (k < length x)%nat /\ (y < length x)%nat /\
-    nth k (r_bce_gradient x y) 0 <> nth k (r_bce_gradient_onehot x y) 0 /\
-    ~ is_derive (fun t => r_bce_loss_row eps (upd x k t) y) (nth k x 0) (nth k (r_bce_gradient x y) 0).
-Proof. exact (GnnCalculus.bce_grad_multi_refuted eps). Qed.
-Print Assumptions bce_grad_multi_refuted.
-
-(** What the derivative is (the one-hot form a repaired loss_gradient returns). *)
-Theorem bce_grad_multi_onehot (eps : R) (x : list R) (y k : nat) :
-  (2 <= length x)%nat -> (k < length x)%nat -> (y < length x)%nat ->
-  eps < r_sigmoid (nth k x 0) < 1 - eps ->
-  is_derive (fun t => r_bce_loss_row eps (upd x k t) y) (nth k x 0) (nth k (r_bce_gradient_onehot x y) 0).
-Proof. exact (GnnCalculus.bce_multi_onehot_derive eps x y k). Qed.
-Print Assumptions bce_grad_multi_onehot.
+    nth k (r_bce_gradient_legacy x y) 0 <> nth k (r_bce_gradient x y) 0 /\
+    ~ is_derive (fun t => r_bce_loss_row eps (upd x k t) y) (nth k x 0) (nth k (r_bce_gradient_legacy x y) 0).
+Proof. exact (GnnCalculus.bce_grad_multi_legacy_refuted eps). Qed.
+Print Assumptions bce_grad_multi_legacy_refuted.
 
 (* =========================================================================================== *)
 (** * Non-vacuity *)
@@ -204,11 +217,13 @@ Example c19_nonvacuous_predictions :
   compute_predictions [((3 # 4)%Q :: nil); ((1 # 2)%Q :: nil)] = [1; 0].
 Proof. split; reflexivity. Qed.
 
-(** The hypotheses of ce_grad / bce_grad_single are met at signal 0 with eps = 1/4. *)
+(** The hypotheses of ce_grad / bce_grad_single / bce_grad_multi are met at signal 0 with eps = 1/4. *)
 Example c19_nonvacuous_losses :
-  (1 / 4 < nth 1 (r_softmax_row [0; 0]) 0 < 1 - 1 / 4)%R /\ (1 / 4 < r_sigmoid 0 < 1 - 1 / 4)%R.
+  (1 / 4 < nth 1 (r_softmax_row [0; 0]) 0 < 1 - 1 / 4)%R /\ (1 / 4 < r_sigmoid 0 < 1 - 1 / 4)%R /\
+  (1 / 4 < r_sigmoid (nth 0 (nth 0 ([0; 0; 0]%R :: nil) nil) 0%R) < 1 - 1 / 4)%R.
 Proof.
-  split.
+  split; [|split].
   - unfold r_softmax_row, g_softmax_row. cbn [map g_sum fold_right nth]. rewrite exp_0. lra.
   - unfold r_sigmoid, g_sigmoid. replace (0 - 0)%R with 0%R by ring. rewrite exp_0. lra.
+  - cbn [nth]. unfold r_sigmoid, g_sigmoid. replace (0 - 0)%R with 0%R by ring. rewrite exp_0. lra.
 Qed.
